@@ -55,6 +55,12 @@ func (s *stream) Read(p []byte) (int, error) {
 	return n, nil
 }
 
+// openConn makes a stream the io.ReadWriteCloser of a wire/net connection that is only read.
+type openConn struct{ *stream }
+
+func (openConn) Write([]byte) (int, error) { return 0, errors.New("HARNESS: read-only connection") }
+func (openConn) Close() error              { return nil }
+
 // recorder is an io.Writer that remembers the offset at which every Write call started: the
 // encoder's own field boundaries.
 type recorder struct {
